@@ -3,7 +3,7 @@
 cd /repo || exit 2
 if [ -n "$(git status --porcelain --untracked-files=no)" ]; then echo "repo not clean"; exit 2; fi
 git apply "$2" || { echo "patch does not apply to /repo"; exit 2; }
-cd /verif && ./check "$1" quick > /tmp/seedcheck.$1.log 2>&1; code=$?
+cd /verif && VERIF_EVIDENCE_DIR=/verif/work/seed-evidence ./check "$1" quick > /tmp/seedcheck.$1.log 2>&1; code=$?
 cd /repo && git checkout -q -- .
 echo "check $1 with $(basename $(dirname $2))/$(basename $2): exit $code; $(grep -c '^VIOLATION' /tmp/seedcheck.$1.log) violation line(s), $(grep '^VIOLATION' /tmp/seedcheck.$1.log | grep -vc no-failing-input-found) with failing input"
 grep "FAIL\|MACHINERY" /tmp/seedcheck.$1.log | cut -c1-160 | head -6
